@@ -63,6 +63,7 @@ func finish(ev map[string]any) (string, bool) {
 	need("container_features", "tuple-of-0", "tuple-of-1", "list-of-0", "dict-of-0", "same-object-twice", "shared-list", "shared-dict", "shared-tuple", "dict-key-tuple", "dict-key-float", "dict-key-bytes")
 	need("cycle_shapes", cycleShapes...)
 	need("cycle_markers", "[...]", "{...}")
+	need("cycle_states", "mutable", "frozen")
 	need("kinds", "NoneType", "bool", "int", "float", "string", "bytes", "list", "tuple", "dict")
 	if counters["cyclic_graphs_printed"] == 0 {
 		missing = append(missing, "no cyclic value was printed")
@@ -474,8 +475,22 @@ func (e *eng) sectionCycles() {
 		}
 		r := c.Rand()
 		g := buildCycle(r, cycleShapes[k%len(cycleShapes)])
-		if !e.printCycle(g, cycleTimeout) {
+		ok, before := e.printCycle(g, cycleTimeout, "mutable")
+		if !ok {
 			return // watchdog fired: inconclusive was recorded; the printing goroutine may still run, so end the shard now
+		}
+		// the same graph once more after it has been frozen (a module's globals are frozen with their
+		// cycles in place): printing must still terminate, with the same text
+		for _, root := range g.roots {
+			root.Freeze()
+		}
+		ok, after := e.printCycle(g, cycleTimeout, "frozen")
+		if !ok {
+			return
+		}
+		if before != nil && after != nil && strings.Join(before, "\x00") != strings.Join(after, "\x00") {
+			c.Violation("C15 cycle-print changed-by-freeze "+g.shape, fmt.Sprintf("str/repr of a cyclic value differ before and after Freeze (%s)", g.desc),
+				map[string]any{"shape": g.shape, "desc": g.desc, "before": before, "after": after})
 		}
 	}
 }
